@@ -123,15 +123,16 @@ func (w *World) computeEffects() {
 	// class-hierarchy graph refined by variable type analysis (sound, much more precise for
 	// function values and interface calls)
 	cg := vta.CallGraph(ssautil.AllFunctions(w.prog), cha.CallGraph(w.prog))
-	for fn, node := range cg.Nodes {
-		if fn == nil {
-			continue
-		}
+	for _, fn := range sortedFuncs(cg.Nodes) {
+		node := cg.Nodes[fn]
 		for _, e := range node.Out {
 			if e.Site != nil && e.Callee != nil && e.Callee.Func != nil {
 				w.siteCallees[e.Site] = append(w.siteCallees[e.Site], e.Callee.Func)
 			}
 		}
+	}
+	for _, cs := range w.siteCallees {
+		sortFuncs(cs) // (in place: the order of a call site's candidates does not depend on the call graph's maps)
 	}
 	all := ssautil.AllFunctions(w.prog)
 	for fn := range all {
